@@ -89,7 +89,8 @@ CLAIMED = {
          "of a mate (the engine does prefer a mate in three to a mate in two now and then: witness in DESIGN.md), never its existence. Cache neutralised: ALL THREE clauses "
          "as theorems (props/C12off.v, props/C12offchess.v) from C11, with the value characterisation. (3) COMPLETENESS, cache on (props/C12seen.v): C12_quiet_mate_in_two_seen / _search — under key_inj (the key determines the position including clock and "
          "repetition record) and seldepth < 254, a mate in two with a QUIET key move is always seen (score >= 32000, the chosen move forces mate) from any mate-sound, "
-         "short-mate-complete cache, both invariants re-established by every completed iteration of any depth (C12_seen_preserved); props/C12seenRefuted.v closes by "
+         "short-mate-complete cache, both invariants re-established by every completed iteration of any depth (C12_seen_preserved); C12_avoids_mate_in_one_cache_on / _search: unless the final score "
+         "is <= -32000 the chosen move does not allow a mate in one (clause 3, cache on, depth >= 2); C12_seen_nonvacuous: a concrete instance of every hypothesis; props/C12seenRefuted.v closes by "
          "vm_compute that for a key move giving check the statement is FALSE of the model (alpha_beta probes with depth d, extends when in check, stores with d+1); "
          "props/C12strict.v closes that the DISTANCE of a mate is not kept (mate in three preferred to mate in two on 1k6/8/2RK4/8/3Q4/8/8/8 w). PARTIAL: completeness of "
          "clause 2 for checking key moves and of clause 3, and anything depending on graph-history interaction (the key ignores clock and path), are not theorems; those "
